@@ -14,6 +14,58 @@ use std::io::{self, BufRead, Write};
 use std::panic;
 use std::str::FromStr;
 
+use program_analysis::analysis_runner::AnalysisRunner;
+use program_structure::file_definition::FileLibrary;
+use program_structure::report::Report;
+use program_structure::writers::{LogWriter, ReportWriter};
+use std::fmt::Display;
+use std::path::PathBuf;
+
+#[derive(Default)]
+struct Collect {
+    reports: Vec<Report>,
+}
+impl LogWriter for Collect {
+    fn write_messages<D: Display>(&mut self, _: &[D]) {}
+}
+impl ReportWriter for Collect {
+    fn write_reports(&mut self, reports: &[Report], _: &FileLibrary) -> usize {
+        self.reports.extend(reports.iter().cloned());
+        reports.len()
+    }
+    fn reports_written(&self) -> usize {
+        self.reports.len()
+    }
+}
+
+fn token(r: &Report) -> String {
+    let (s, e) = r.primary().first().map(|l| (l.range.start as i64, l.range.end as i64)).unwrap_or((-1, -1));
+    let mut tok = format!("{}:{}:{}-{}:{}", r.id(), r.category(), s, e, r.secondary().len());
+    for l in r.secondary() {
+        tok.push_str(&format!(":{}-{}", l.range.start, l.range.end));
+    }
+    tok
+}
+
+/// analyzefile <curve> <path> [<path> ...]: the whole real pipeline (parse_files, desugaring, lifting, SSA, all passes)
+fn analyze_file(curve: &str, paths: &[&str]) -> String {
+    let curve = match Curve::from_str(curve) {
+        Ok(c) => c,
+        Err(_) => return "BADCURVE".to_string(),
+    };
+    let files: Vec<PathBuf> = paths.iter().map(PathBuf::from).collect();
+    let (mut runner, reports) = AnalysisRunner::new(curve).with_files(&files);
+    let mut w = Collect::default();
+    w.write_reports(&reports, runner.file_library());
+    runner.analyze_functions(&mut w, true);
+    runner.analyze_templates(&mut w, true);
+    let mut out = vec!["OK".to_string()];
+    for r in w.reports.iter() {
+        out.push(token(r));
+    }
+    out.join(" ")
+}
+
 struct NoContext;
 impl AnalysisContext for NoContext {
     fn is_function(&self, _: &str) -> bool {
@@ -82,6 +134,7 @@ fn main() {
             continue;
         }
         let r = panic::catch_unwind(|| match w[0] {
+            "analyzefile" => analyze_file(w[1], &w[2..]),
             "analyze" => match String::from_utf8(unhex(w.get(2).unwrap_or(&""))) {
                 Ok(s) => analyze(w[1], &s),
                 Err(_) => "BADUTF8".to_string(),
